@@ -106,12 +106,9 @@ Proof. vm_compute. repeat split. Qed.
 
 Definition demo_close_req := RH (HRequest (B "GET") (B "/") [(B "host", B "x"); (B "connection", B "close")] (B "1.1")).
 (* the third ghost is live too: after a request that said Connection: close, an oracle handing over another Request
-   (h11 cannot) trips it *)
+   (h11 cannot) trips it.  (It has to come before the first request's end: from then on the protocol ignores input.) *)
 Example C06_closing_nonvacuous :
-  let bad := demo_outs [IData [demo_close_req; RH HEndOfMessage];
-                        IApp (Some (MStart (Some 200%Z) [(HB (B "content-length"), HB (B "0"))] false)) [];
-                        IApp (Some (MBody (HB []) false)) [];
-                        IData [demo_req]] in
+  let bad := demo_outs [IData [demo_close_req; demo_req]] in
   has_note "h11-contract-violated" bad = true /\ has_note "request-after-close" bad = true.
 Proof. vm_compute. split; reflexivity. Qed.
 
